@@ -209,9 +209,11 @@ def mutants():
 
     def bad(etype, types, factory):
         r = orig(etype, types, factory)
-        if r is None and etype.supertypes:
-            return etype.supertypes[0]          # falls back to a supertype
+        for c in types:
+            t = c.get_type() if hasattr(c, 'get_type') else c
+            if not t.is_type_constructor() and t != etype and t.is_subtype(etype):
+                return t                      # a strict subtype is "irrelevant enough"
         return r
-    out.append(('find_irrelevant_type falls back to a supertype', lambda: setattr(tu, 'find_irrelevant_type', bad),
+    out.append(('find_irrelevant_type prefers a subtype', lambda: setattr(tu, 'find_irrelevant_type', bad),
                 lambda: setattr(tu, 'find_irrelevant_type', orig)))
     return out
